@@ -266,6 +266,7 @@ def derivative_search(ctx, budget, honesty):
                               floor=FLOOR[(m, n)] * S + resolution, final_step=hfin, under_resolution=ur, signature=sig2, **rep)
     if honesty:
         nan_tail_family(ctx, max(120, budget // 3))
+        random_ratio_family(ctx, max(100, budget // 4))
         under_resolved_probe(ctx)
         stationary_single_estimate(ctx, max(20, budget // 8))
     else:
@@ -383,6 +384,43 @@ def multistep_complex_family(ctx, budget):
             ctx.violation('Derivative (complex-step method, user generator with several moderate steps) is outside the accuracy envelope of '
                           '(%s, n=%d, order=%d)' % (m, n, order), got=v, error=abs(v - d[n]), local_scale=S, ratio=ratio, envelope=env, **rep)
     ctx.notes.append('multi-step complex family: %d cases, worst ratio / envelope = %.3g' % (done, worst))
+
+
+def random_ratio_family(ctx, budget):
+    """Honesty with step ratios that are not round numbers (a ratio with many decimals must be used as it is, in the steps, the rule
+    and the Richardson stage alike): elementary functions with closed-form derivatives, all methods, n <= 3, order 1..6,
+    step_ratio uniform in (1.25, 4); |value - exact| <= K_EST * estimate + 1e-9 * scale + 10 eps |f| / final_step^n."""
+    import numdifftools as nd
+    rng = ctx.rng
+    cases = elementary_cases()
+    worst = 0.0
+    for _ in range(budget):
+        name, f, x, exact = rng.choice(cases)
+        m = rng.choice(['central', 'forward', 'backward', 'complex'])
+        n = rng.randint(1, 3)
+        order = rng.randint(1, 6)
+        ratio = rng.choice([rng.uniform(1.25, 4.0), 2.0 ** 0.5, 4.0 / 3.0, 5.0 / 3.0, math.e / 2])
+        rep = dict(program=name, x=x, method=m, n=n, order=order, step_ratio=ratio)
+        ctx.tried(('random-ratio', name, x, m, n, order, ratio))
+        try:
+            with warnings.catch_warnings():
+                warnings.simplefilter('ignore')
+                val, info = nd.Derivative(f, n=n, method=m, order=order, step_ratio=ratio, full_output=True)(x)
+        except Exception as ex:
+            ctx.violation('Derivative raised %r' % ex, **rep)
+            continue
+        v, est = float(val), float(info.error_estimate)
+        ex_n = float(exact(n))
+        scale = abs(float(exact(0))) + abs(ex_n)
+        err = abs(v - ex_n) if math.isfinite(v) else float('inf')
+        hfin = abs(float(info.final_step))
+        resolution = 10.0 * 2.0 ** -52 * abs(float(exact(0))) / hfin ** n if (hfin > 0 and m != 'complex') else 0.0
+        floor = 1e-9 * scale + resolution
+        worst = max(worst, err / (K_EST * est + floor))
+        if not err <= K_EST * est + floor:
+            ctx.violation('true error exceeds %g x error_estimate + rounding floor (step ratio with many decimals)' % K_EST, got=v, exact=ex_n,
+                          error=err, error_estimate=est, floor=floor, final_step=hfin, **rep)
+    ctx.notes.append('random step ratios: worst error / (K_EST * estimate + floor) = %.3g' % worst)
 
 
 def nan_tail_family(ctx, budget):
